@@ -20,6 +20,7 @@ REPLAYS = os.environ.get('VERIF_REPLAYS') or os.path.join(VERIF, 'replays')
 
 CASE_WALL_S = 120
 MAX_REPORTED = 6
+MAX_CANDIDATES = 4
 
 REAL = ['pynetdicom2/* from /repo (dulprovider run loop, fsm, pdu/userdataitems codecs, '
         'dimsemessages, asceprovider, applicationentity, sopclass, statuses)', 'pydicom', 'six',
@@ -432,60 +433,85 @@ def main(prop, argv):
                 prop, known_open[sig].get('what', ''), sig, len(occ)))
             continue
         unknown += 1
-        case, v, _ = occ[0]
         if attempted >= MAX_REPORTED:
             print('signature (not minimised, over the reporting cap): %s (%d occurrences)' % (
                 sig, len(occ)))
             if rc == 0:
                 rc = 1
             continue
-        # cheap first look: does the case show the signature when it is run on its own in this
-        # process?  If not, the observation depended on what earlier cases had left behind in
-        # the worker process - it is reported as such and does not use up the reporting cap.
-        try:
-            r0 = mod.run_case(case)
-        except BaseException:  # pylint: disable=broad-except
-            _close_leftovers()
-            r0 = {}
-        if not any(vv['sig'] == sig for vv in r0.get('violations', [])):
-            print('UNREPRODUCED signature %s (%d occurrences): not seen again when the case is '
-                  'run on its own' % (sig, len(occ)))
+        # An observation may depend on what earlier cases left behind in the worker process
+        # (module-level state in the library under test).  Such an observation is no verdict
+        # by itself: up to MAX_CANDIDATES cases showing the signature are tried, and only one
+        # that shows it again on its own - in this process AND from its replay file in a fresh
+        # interpreter - is reported.
+        done = False
+        tried = 0
+        counted = False
+        step = max(1, len(occ) // MAX_CANDIDATES)
+        for case, v, _ in occ[::step][:MAX_CANDIDATES]:
+            tried += 1
+            # cheap first look: does the case show the signature when it is run on its own in
+            # this process?
+            try:
+                r0 = mod.run_case(case)
+            except BaseException:  # pylint: disable=broad-except
+                _close_leftovers()
+                r0 = {}
+            if not any(vv['sig'] == sig for vv in r0.get('violations', [])):
+                continue
+            if not counted:
+                attempted += 1
+                counted = True
+            # the first candidate is minimised; if its minimised form does not replay in a fresh
+            # interpreter (the minimiser itself runs in this - by now used - process), and for
+            # every further candidate, the case is written as it was generated
+            forms = ['minimised', 'as-generated'] if tried == 1 else ['as-generated']
+            for form in forms:
+                det = v.get('detail', '')
+                traces = full = None
+                small = case
+                if form == 'minimised':
+                    small = minimise(mod, case, sig)
+                    r2 = mod.run_case(small)
+                    for vv in r2.get('violations', []):
+                        if vv['sig'] == sig:
+                            det = vv.get('detail', det)
+                    try:
+                        rec = capture_traces(mod, small, sig)
+                        if rec:
+                            full = {k: len(t) for k, t in rec.items()}
+                            traces = minimise_traces(mod, small, sig, rec)
+                    except BaseException:  # pylint: disable=broad-except
+                        traces = None
+                path = write_replay(prop, modname, small, sig, det, traces, full)
+                # re-verify in a fresh interpreter
+                env = dict(os.environ)
+                p = subprocess.run([sys.executable, os.path.join(VERIF, 'check'), prop,
+                                    '--replay', path], capture_output=True, text=True, env=env,
+                                   timeout=600)
+                if p.returncode == 1:
+                    done = True
+                    break
+                # seen in a worker process but not reproduced from the replay file in a fresh
+                # interpreter: never reported as a verdict on its own
+                print('not reproduced (%s): replay of %s gave rc=%d\n%s\n%s' % (
+                    form, path, p.returncode, p.stdout[-600:], p.stderr[-400:]))
+                try:
+                    os.unlink(path)
+                except OSError:
+                    pass
+            if done:
+                verified += 1
+                print('signature: %s (%d occurrences)' % (sig, len(occ)))
+                print(det)
+                print('VIOLATION property=%s replay=%s' % (prop, path))
+                if rc == 0:
+                    rc = 1
+                break
+        if not done:
+            print('UNREPRODUCED signature %s (%d occurrences): none of %d cases tried showed it '
+                  'again when run on its own' % (sig, len(occ), tried))
             unreproduced += 1
-            continue
-        attempted += 1
-        small = minimise(mod, case, sig)
-        r2 = mod.run_case(small)
-        det = v.get('detail', '')
-        for vv in r2.get('violations', []):
-            if vv['sig'] == sig:
-                det = vv.get('detail', det)
-        traces = full = None
-        try:
-            rec = capture_traces(mod, small, sig)
-            if rec:
-                full = {k: len(t) for k, t in rec.items()}
-                traces = minimise_traces(mod, small, sig, rec)
-        except BaseException:  # pylint: disable=broad-except
-            traces = None
-        path = write_replay(prop, modname, small, sig, det, traces, full)
-        # re-verify in a fresh interpreter
-        env = dict(os.environ)
-        p = subprocess.run([sys.executable, os.path.join(VERIF, 'check'), prop, '--replay', path],
-                           capture_output=True, text=True, env=env, timeout=600)
-        if p.returncode != 1:
-            # seen in a worker process but not reproduced from the replay file in a fresh
-            # interpreter (e.g. it depended on state left behind by earlier cases in the same
-            # process): never reported as a verdict on its own
-            print('UNREPRODUCED signature %s: replay of %s gave rc=%d\n%s\n%s' % (
-                sig, path, p.returncode, p.stdout[-1200:], p.stderr[-800:]))
-            unreproduced += 1
-            continue
-        verified += 1
-        print('signature: %s (%d occurrences)' % (sig, len(occ)))
-        print(det)
-        print('VIOLATION property=%s replay=%s' % (prop, path))
-        if rc == 0:
-            rc = 1
     if unreproduced and not verified:
         # nothing but unreproducible observations (and possibly unverified ones over the
         # reporting cap): a harness problem, not a verdict - never exit 1 without a VIOLATION line
